@@ -270,6 +270,13 @@ def run(ctx):
         conv = [c.get('callee') for c in f.calls() if (c.get('callee') or '').endswith('_array') and not (c.get('callee') or '').startswith('endswap_')]
         ctx.ob('DISPATCH', name, okio and bool(conds) and not conv, f.loc(f.body), 'raw %d-byte transfer, swap only under %s, no value conversion %s' % (sz, conds, conv), None)
 
+    # ------------------------------------------------------------------ SLOT-FAMILY
+    ctx.rule('SLOT-FAMILY', 'wherever one switch arm / block installs two or more of the typed slots of one direction (read_short|int|float|double, write_...), the installed functions share one stem '
+             '(name up to its last underscore: host_read_, replace_write_, pcm_read_, alac_write_): no sample type is served by another implementation (e.g. the non-IEEE fallback for float only)', floor=70)
+    from engine.slotfamily import slot_family
+    n_sf = slot_family(ctx, prog)
+    ctx.require(n_sf >= 70, 'only %d slot groups found' % n_sf)
+
     # ------------------------------------------------------------------ FLUSH
     ctx.rule('FLUSH-PENDING', 'the close-time flush of a block codec is guarded by a test that samples are pending (counter non-zero): on an exact block boundary nothing is appended', floor=4)
     ctx.rule('FLUSH', 'for every codec init that installs write functions whose worker emits a block only under a fullness test on its private counters: the close hook installed for that codec, '
